@@ -54,4 +54,5 @@ def rename_variable(variable: str, *, static: bool, private: bool) -> str:
     if renamed_variable:
         return renamed_variable
 
-    raise RuntimeError(f"Unable to find a replacement name for {variable}")
+    # Nothing is left of a name without ascii letters and digits, like é. It keeps its name.
+    return variable
